@@ -314,10 +314,11 @@ func knownNonNil(v ssa.Value, b *ssa.BasicBlock) bool {
 	for _, f := range dominatingFacts(b) {
 		c, pol := unwrapNot(f.Cond, f.Pol)
 		if bo, ok := c.(*ssa.BinOp); ok {
+			// (go/ssa has no CSE: `if s.Flows != nil { f(s.Flows) }` loads the field twice)
 			var other ssa.Value
-			if bo.X == v {
+			if bo.X == v || (isNilConst(bo.Y) && equivLoad(bo.X, v, 0)) {
 				other = bo.Y
-			} else if bo.Y == v {
+			} else if bo.Y == v || (isNilConst(bo.X) && equivLoad(bo.Y, v, 0)) {
 				other = bo.X
 			} else {
 				continue
